@@ -25,7 +25,7 @@ P = {
          "stiff subsets sampled in the replay, exhaustive in the specification", TECH + "spec-to-code replay", "6 C07"),
  "C12": ("TLC checks on every structural model that removal of unused variables changes neither results nor layout and never reads a removed name; replay compares with/without removal by name; TraceEmit checks def-before-use on every emitted function with remove_unused on the repository's models; split sub-models (missing variables) are replayed with removal too",
          "bounded models; three backends in the trace leg, numpy in the replay", TECH + "replay + trace validation (use-before-def)", "6 C12"),
- "C08": ("WellFormed (written from the property) decides acceptance; TLC applies 23 fault kinds at every site of sampled structural models (about 10^5 faulted texts) and checks that the staged loader of the specification rejects exactly the ill-formed ones; a sample of the faulted texts is loaded and generated (numpy + C) in the real library: an ill-formed text that yields code is a violation",
+ "C08": ("WellFormed (written from the property) decides acceptance; TLC applies 25 fault kinds at every site of sampled structural models (about 10^5 faulted texts) and checks that the staged loader of the specification rejects exactly the ill-formed ones; a sample of the faulted texts is loaded and generated (numpy + C) in the real library: an ill-formed text that yields code is a violation; arbitrary token strings at file level (OdeFile.tla: the statement grammar as a recursive-descent parser; MC_File.tla: every sequence of up to 3-4 statements and every single-token mutation of complete models) are given to the real loader, which may accept only what the specification's model of the string finds well formed",
          "one fault per text; base models with 1-2 intermediates", TECH + "fault enumeration in TLA+, spec-to-code replay", "6 C08"),
  "C09": ("TLC shows the layout is a function of the text for every structural model and - on the free-schedule variant of the specification - produces the models on which set-iteration order would change the layout; those witnesses, a structural sample and the repository's models are generated in fresh processes under different PYTHONHASHSEED values and must be byte-identical (each process takes the texts in its own order); hook traces give the order in which dependency sets reach the sorter and, when it varies, MC_Sched.tla decides whether a layout-changing order exists; call histories generated from Session.tla are replayed in one process",
          "hash seeds sampled (6 quick / 32 thorough); histories of length <= 3", TECH + "schedule exploration in the specification, cross-process replay, hook traces", "6 C09"),
@@ -41,8 +41,8 @@ P = {
          "Myokit trusted as second opinion; 2 components, 2 nesting levels", TECH + "spec-to-code replay with Myokit as cross-check", "6 C15"),
  "C16": ("a catalogue of removable singularities composed by sum, product and scaling, with the reference meaning (limit at the singular point, original value elsewhere) evaluated by TLC; remove_singularities() of the real library is evaluated on and off every singular point; non-removable and singularity-free expressions must stay untouched",
          "catalogue of 7 functions x 5 arguments; the doubled expression for >= 2 singularities is a recorded known finding (pinned by a test)", TECH + "spec-to-code replay with known-findings file", "6 C16"),
- "C17": ("decorations (comment lines at six placements with 30 adversarial strings, blank lines, indentation, tabs, CRLF, continuation, unit annotations) of sampled structural models; TLC checks that stripping the decoration recovers the text; each decorated text is loaded in a child process (hang = violation) and compared with the plain model: components, layout, numerics",
-         "the specification's share is the enumeration and the expected observation (comments are inert by definition in the model)", TECH + "spec-to-code replay in child processes", "6 C17"),
+ "C17": ("the file-level grammar OdeFile.tla (a newline is white space, a comment is white space wherever no statement can end, a header scopes what follows) is checked by TLC on every statement sequence and single-token mutation of MC_File.tla (File_CommentsInert, File_ScopeIsHeader) and each string is given to the real loader written on one line, with one token per line and without its comments: same verdict, same components, same numbers; decorations (comment lines at 24 placements with 38 adversarial strings, blank lines, indentation, tabs, CRLF, continuation, unit annotations) of sampled structural models; TLC checks that stripping the decoration recovers the text; each decorated text is loaded in a child process (hang = violation) and compared with the plain model: components, layout, numerics",
+         "token alphabet of 16, statements from a menu of 14; for the decorations of structural models the specification's share is the enumeration and the expected observation", TECH + "spec-to-code replay in child processes", "6 C17"),
  "C18": ("Cli.tla models one invocation (flags, configuration file, model validity) as ParseArgs/ReadConfig/Validate/Load/Generate/Write; TLC checks write-only-after-success (action property), exit status and the override rule on all 298 368 invocations; a stratified sample is run through the real typer application and the written bytes are compared with the API called with the effective options; cellml2ode and python -m gotranx subprocesses",
          "automatic pyproject discovery is not judged (black's project-root rule); formatter availability is a constant of the model", TECH + "spec-to-code replay through typer", "6 C18"),
  "C19": ("MC_Ident executes the emitted statements in one flat namespace that contains the template's own locals: without the reserved-name check TLC reports the capturing identifiers, with it C19_NoCapture holds; 85 identifiers x 3 roles x 3 backends are replayed: refused by the loader, or results equal to the renamed model; emitted code of the repository's models is trace-validated (rule redefinition)",
